@@ -484,3 +484,14 @@ package hclsyntax
 //@ nosafety
 //@ ensures marks: forall k iface :: { marked(ret0, k) } marked(exprVal(old(e.CollExpr), ctx), k) ==> marked(ret0, k) || (ret0 == cty.DynamicVal && len(ret1) > 0)
 //@ loopall invariant len(marks) >= 1 && marks[0] == collMarks
+
+// Unary operators: the operand's marks are on the result (the function call machinery re-marks the
+// result; error paths return the bare unknown with an error diagnostic).
+// verif:func (*UnaryOpExpr).Value
+//@ nosafety
+//@ requires e.Op != nil
+//@ ensures marks: forall k iface :: { marked(ret0, k) } marked(exprVal(old(e.Val), ctx), k) ==> marked(ret0, k) || (bareUnknown(ret0) && hasErr(ret1))
+// Index and relative traversal expressions delegate to hcl.Index / Traversal.TraverseRel.
+// verif:func (*IndexExpr).Value
+//@ nosafety
+//@ ensures marks: len(ret1) == 0 ==> (forall k iface :: { marked(ret0, k) } marked(exprVal(old(e.Collection), ctx), k) ==> marked(ret0, k))
